@@ -49,6 +49,15 @@ fn unwind_drop_case(prop: &str, cases: &mut dyn Write, meta: &mut dyn Write) {
     writeln!(meta, "{}\t{}\t{}", id, c.class, checks.join(",")).unwrap();
 }
 
+/// A family of harness-level checks attached to one ordinary Body::empty() case.
+fn harness_case(prop: &str, class: &str, suffix: &str, fails: Vec<String>, cases: &mut dyn Write, meta: &mut dyn Write) {
+    let c = once_engine::OnceCase { kind: 0, data: vec![], polls: 2, class: class.into() };
+    let checks: Vec<String> = fails.into_iter().map(|f| format!("{}:{}", prop, f)).collect();
+    let id = format!("{}-{}", prop, suffix);
+    writeln!(cases, "once {} {}", id, once_engine::run(&c).to_string()).unwrap();
+    writeln!(meta, "{}\t{}\t{}", id, c.class, checks.join(",")).unwrap();
+}
+
 /// serve() on entities dated before 1970 (serve_engine::pre_epoch_checks): harness-level checks attached to
 /// one ordinary Body::empty() case.
 fn pre_epoch_case(prop: &str, cases: &mut dyn Write, meta: &mut dyn Write) {
@@ -133,6 +142,9 @@ fn main() {
                 if prop == "C11" {
                     inline_wake_case(&prop, &mut cases, &mut meta);
                     unwind_drop_case(&prop, &mut cases, &mut meta);
+                    if watch::gate("H:consumer-dies-in-its-own-conversion").is_some() {
+                        harness_case(&prop, "H:consumer-dies-in-its-own-conversion", "D0", stream_engine::poisoning_consumer_checks(), &mut cases, &mut meta);
+                    }
                 }
                 #[cfg(not(feature = "hooks"))]
                 if prop == "C11" {
@@ -255,12 +267,18 @@ fn main() {
                     gen_serve::gen_far_future(&mut emit_serve);
                     drop(emit_serve);
                     pre_epoch_case(&prop, &mut cases, &mut meta);
+                    if watch::gate("H:tens-of-thousands-of-ranges").is_some() {
+                        harness_case(&prop, "H:tens-of-thousands-of-ranges", "M0", serve_engine::many_parts_checks(), &mut cases, &mut meta);
+                    }
                 }
                 "C14" => {
                     drop(emit_serve);
                     histories::gen_c14(&mut rng, thorough, &mut cases, &mut meta, &prop);
                     histories::gen_c14_boundary(thorough, &mut cases, &mut meta, &prop, 0);
                     pre_epoch_case(&prop, &mut cases, &mut meta);
+                    if watch::gate("H:slow-validators").is_some() {
+                        harness_case(&prop, "H:slow-validators", "V0", serve_engine::slow_validator_checks(), &mut cases, &mut meta);
+                    }
                 }
                 "C15" => {
                     drop(emit_serve);
@@ -393,6 +411,9 @@ fn main() {
                         writeln!(cases, "dir {} {}", id, dir_engine::run(&rt, &tree, &base_file, &c)).unwrap();
                         writeln!(meta, "{}\t{}\t", id, c.class.replace('\t', " ").replace('\n', " ").replace('\0', "\\0")).unwrap();
                     });
+                    if watch::gate("H:one-FsDir-while-the-tree-changes").is_some() {
+                        harness_case(&prop, "H:one-FsDir-while-the-tree-changes", "R0", dir_engine::reuse_checks(&rt), &mut cases, &mut meta);
+                    }
                 }
                 "C20" => {
                     gen_serve::gen_c07(&mut rng, true, &mut emit_serve);
